@@ -755,6 +755,8 @@ impl LdapConnAsync {
     }
 
     async fn turn(mut self, mode: LoopMode) -> Result<Self> {
+        // single-operation mode: set once the operation's result has been delivered
+        let mut answered = false;
         loop {
             tokio::select! {
                 req_id = self.id_scrub_rx.recv() => {
@@ -860,6 +862,7 @@ impl LdapConnAsync {
                         if let Err(e) = tx.send((tag, controls)) {
                             warn!("ldap result send error: {:?}", e);
                         }
+                        answered = true;
                         let mut msgmap = self.msgmap.lock().expect("msgmap mutex (stream rx)");
                         msgmap.1.remove(&id);
                     } else {
@@ -868,13 +871,16 @@ impl LdapConnAsync {
                 },
             };
             if let LoopMode::SingleOp = mode {
-                break;
+                if answered {
+                    break;
+                }
             }
         }
         if let LoopMode::SingleOp = mode {
-            if !self.resultmap.is_empty() {
-                // the connection ended, or the loop was left, with the operation unanswered:
-                // dropping the connection fails the waiting caller instead of leaving it hanging
+            if !answered {
+                // the connection ended, or the loop was left, with the operation unanswered
+                // (possibly not even taken from the request channel yet): dropping the connection
+                // fails the waiting caller instead of leaving it hanging
                 return Err(LdapError::EndOfStream);
             }
         }
